@@ -69,9 +69,10 @@ outv  == <<increments, cs>>
 vars  == <<pc, load, stepNum, itv, c, fext, mats, resv, lsv, outv, calls>>
 
 ASSUME Admissible ==
-    /\ RLt(RZero, minInc) /\ RLt(RZero, initialInc) /\ RLt(RZero, absTOL) /\ RLt(RZero, maxIncSetting)
+    /\ RLt(RZero, minInc) /\ RLt(RZero, initialInc) /\ RLe(RZero, absTOL) /\ RLt(RZero, maxIncSetting)
     /\ maxNumIter >= 1 /\ maxIterLS >= 1 /\ computeEveryN >= 1
     /\ Env \in {"scripted", "linear"} /\ Dim >= 0
+    \* absTOL = 0 is admitted: nothing ever converges, the run ends at the minimum increment.
     \* minInc = 0 is outside the admissible configurations: "minimum increment size; if
     \* achieved the analysis is terminated" - with 0 the bisection loop need not end.
 
@@ -228,7 +229,9 @@ EvalResidual(Rv, rm) ==                                   \* :66-73  R = fext - 
 
 IsConv == iter >= 2 /\ RLt(rmax, absTOL)                                   \* :75
 IsDiv  == RLt(prevR, rmax) /\ RLt(minR, rmax) /\ iter > 2                  \* :78
-IsSlow == iter > 2 /\ RLt(FDiv(RAbs(FSub(prevR, rmax)), RAbs(prevR)), tooSlowTOL)   \* :83-84 (prevR > 0 when iter > 2)
+IsSlow == /\ iter > 2                                                       \* :83-84
+          /\ ~RIsZero(prevR)      \* |prev-R|/0 is inf or nan (only possible with absTOL = 0): not < too_slow_TOL
+          /\ RLt(FDiv(RAbs(FSub(prevR, rmax)), RAbs(prevR)), tooSlowTOL)
 
 Converged ==
     /\ pc = "judge" /\ IsConv
@@ -481,7 +484,7 @@ Termination == <>(pc = "done")
 (* linear problem: solved to full load with the linear solution (2^-40 of  *)
 (* the solution's magnitude: the last correction is rounded)               *)
 LinSol == Solve(EnvK0, Fext(ROne))
-LinearSolved == (Env = "linear" /\ pc = "done") =>
+LinearSolved == (Env = "linear" /\ pc = "done" /\ RLt(RZero, absTOL)) =>
                   \/ /\ Len(increments) > 0 /\ LastOf(increments) = ROne
                      /\ \A i \in 1..Dim : RClose(LastOf(cs)[i], LinSol[i], RAbs(LinSol[i]), 40)
                   \/ SigStopsShort
